@@ -10,18 +10,35 @@ KEY_RETREG = "C05:ret_reg-of-unreached-register-measurement"
 HERE = os.path.dirname(os.path.abspath(sc.__file__))
 
 
-def observe(repo, prog, script):
-    return sa.run_program(repo, prog, script, max_qubits=64)
+def observe(repo, prog, script, late=False):
+    return sa.run_program(repo, prog, script, max_qubits=64, late_reads=late)
 
 
-def item_of(repo, fd, prog, script, tag):
-    obs = observe(repo, prog, script)
-    return dict(prog=prog, script=script, obs=obs, fd=fd, tag=tag)
+def item_of(repo, fd, prog, script, tag, late=False):
+    obs = observe(repo, prog, script, late)
+    return dict(prog=prog, script=script, obs=obs, fd=fd, tag=tag, late=late)
+
+
+def has_early_register_outcome(prog):
+    """a register outcome measured in a block that is not the last one"""
+    blocks, cur = [], []
+    for s in prog:
+        if s[0] == "flush":
+            blocks.append(cur)
+            cur = []
+        else:
+            cur.append(s)
+    d, u = set(), set()
+    for b in blocks[:-1]:
+        for s in b:
+            sa.reg_defs_uses(s, d, u)
+    return any(not isinstance(x, tuple) for x in d)
 
 
 def report(ctx, it, code, what_extra=""):
     obs = it["obs"]
-    rep = dict(sdk_program=it["prog"], outcome_script=it["script"], what=sc.BCODE.get(code, str(code)),
+    rep = dict(sdk_program=it["prog"], outcome_script=it["script"], late_reads=bool(it.get("late")),
+               what=sc.BCODE.get(code, str(code)) + (" (register outcomes read only after the last flush)" if it.get("late") else ""),
                pipeline=dict(status=obs["status"], error=obs.get("exc"), at=obs.get("at"), trace=obs["trace"][:60],
                              flushes=obs["flushes"][-3:], final_arrays=obs["final_arrays"]))
     key = KEY_RETREG if code == 6 else None
@@ -37,7 +54,7 @@ def shrink(ctx, repo, fd, it, rounds=4):
         for i in range(len(stmts) - 1):
             try:
                 p = sa.renumber_arrays(stmts[:i] + stmts[i + 1:])
-                c = item_of(repo, fd, p, cur["script"], "shrink")
+                c = item_of(repo, fd, p, cur["script"], "shrink", cur.get("late", False))
             except Exception:  # noqa
                 continue
             cands.append(c)
@@ -90,8 +107,9 @@ def run(ctx):
     # corpus first
     for path in sorted(glob.glob(os.path.join(HERE, "..", "corpus", "C05", "*.json"))):
         rec = json.load(open(path))
-        it = item_of(repo, fd, rec["prog"], rec["script"], "corpus:" + os.path.basename(path))
+        it = item_of(repo, fd, rec["prog"], rec["script"], "corpus:" + os.path.basename(path), bool(rec.get("late_reads")))
         it["expect_key"] = rec.get("key")
+        it["no_struct"] = bool(rec.get("no_struct"))
         items.append(it)
     n_corpus = len(items)
 
@@ -99,12 +117,18 @@ def run(ctx):
     n_prog = 170 if quick else 1500
     kinds = {}
     depths = {}
+    n_late = 0
+    n_stale = 0
     for _ in range(n_prog):
         prog, script = g.program()
         sa.stmt_kinds(prog, kinds)
         d = sa.depth_of(prog)
         depths[d] = depths.get(d, 0) + 1
         items.append(item_of(repo, fd, prog, script, "random-flush"))
+        if has_early_register_outcome(prog):
+            # the same program, looking at its register outcomes only at the end
+            items.append(item_of(repo, fd, prog, script, "late-reads", late=True))
+            n_late += 1
         stmts = sa.strip_flushes(prog)
         n = len(stmts)
         cuts = sa.allowed_cuts(stmts)
@@ -113,6 +137,17 @@ def run(ctx):
         else:
             subsets = sorted({0, (1 << len(cuts)) - 1, rng.getrandbits(len(cuts)), rng.getrandbits(len(cuts))})
         masks = [sum(1 << cuts[j] for j in range(len(cuts)) if (sub >> j) & 1) for sub in subsets]
+        sc_ = sa.stale_cuts(stmts)
+        if sc_:
+            # a register outcome used as an operand by a LATER subroutine (behavioural oracle only)
+            p = sa.with_flush_mask(stmts, 1 << rng.choice(sc_))
+            try:
+                it_ = item_of(repo, fd, p, script, "register-outcome-across-flush")
+                it_["no_struct"] = True
+                items.append(it_)
+                n_stale += 1
+            except sa.IllFormed:
+                pass
         for m in masks:
             p = sa.with_flush_mask(stmts, m)
             if p == prog:
@@ -121,7 +156,16 @@ def run(ctx):
                 items.append(item_of(repo, fd, p, script, "flush-mask"))
             except sa.IllFormed:
                 pass
+    # register outcomes handed from one subroutine to the next: measurements into registers in every
+    # block, conditions and additions on outcomes of earlier blocks (behavioural oracle only)
+    for _ in range(40 if quick else 400):
+        prog, script = sa.gen_handover(rng)
+        it_ = item_of(repo, fd, prog, script, "register-outcome-across-flush", late=rng.random() < 0.5)
+        it_["no_struct"] = True
+        items.append(it_)
+        n_stale += 1
     ctx.coverage["stream"] = dict(base_programs=n_prog, cases=len(items), corpus=n_corpus, statement_kinds=kinds,
+                                  late_read_cases=n_late, register_outcome_across_flush_cases=n_stale,
                                   depth_histogram=depths)
     for it in items:
         k = sa.stmt_kinds(it["prog"])
@@ -200,7 +244,7 @@ def replay(ctx, path):
     rec = json.load(open(path))["replay"]
     prog, script = rec["sdk_program"], rec["outcome_script"]
     fd = sc.probe_free_deactivates(ctx.repo)
-    it = item_of(ctx.repo, fd, prog, script, "replay")
+    it = item_of(ctx.repo, fd, prog, script, "replay", bool(rec.get("late_reads")))
     bad = sc.host_equals_controller(it["obs"])
     _, b_bad, _ = sc.run_batch(ctx, "replay", [it])
     print("replay:", dict(pipeline_status=it["obs"]["status"], error=it["obs"].get("exc"), host_vs_controller=bad[:3],
